@@ -237,3 +237,15 @@ def oracle(ctx, hints):
     return [{"signature": sig, "what": "MetConfig %s: met=%r gives %r, the property demands %r" % (sig, met, got, want),
              "replay": {"met": met, "impl": got, "spec": want, "how": "bldfm.config_parser.parse_config_dict({'domain':..,'towers':..,'met': met}) then n_timesteps/get_step"}}
             for sig, (size, met, got, want) in found.items()]
+
+
+def replay(body):
+    cp = _impl()
+    met = body["met"]
+    got = run_impl(cp, met, through_drivers=True)
+    want = spec_outcome(met)
+    print("met      =", met)
+    print("impl     =", got)
+    print("property =", want)
+    print("FAILS" if got != want else "holds")
+    return 1 if got != want else 0
